@@ -386,6 +386,40 @@ def _shell_algebra(func, lvec_names=()):
     return LogAlgebra(cfg_of(func), atom, pos, vec), env
 
 
+def posterior_normalisation(ctx, rid):
+    """The weights posterior() returns are last set by `w = w - logsumexp(w)`."""
+    prog = ctx.program
+    f = prog.func('Sampler.posterior')
+    n = 0
+    cfgp = cfg_of(f)
+    from .exprs import as_aug
+    for r_ in walk_no_nested(f.node):
+        if not (isinstance(r_, ast.Return) and isinstance(r_.value, ast.Tuple) and
+                len(r_.value.elts) >= 2 and isinstance(r_.value.elts[1], ast.Name) and
+                cfgp.has(r_)):
+            continue
+        wname = r_.value.elts[1].id
+        for d in sorted(cfgp.defs_at(cfgp.node_of(r_).id, wname)):
+            dn = cfgp.nodes[d]
+            r = as_aug(dn.ast) if dn.kind == 'stmt' else None
+            ok = False
+            if r is not None:
+                t, op, v = r
+                ok = isinstance(op, ast.Sub) and isinstance(v, ast.Call) and \
+                    (dotted(v.func) or '').endswith('logsumexp') and len(v.args) == 1 and \
+                    not v.keywords and unparse(v.args[0]) == unparse(t)
+            n += 1
+            ctx.ob(rid, 'Sampler.posterior:weights-normalised-by-own-sum', ok,
+                   f.where(dn.ast if dn.ast is not None else r_),
+                   'the returned log weights are reduced by the logsumexp of that very vector: '
+                   'they sum to one' if ok else
+                   'the returned weights are last set by `%s`, which does not subtract the '
+                   'logsumexp of the weight vector itself: they do not sum to one'
+                   % (unparse(dn.ast)[:60] if dn.ast is not None else '?'))
+
+    return n
+
+
 def _consumers(ctx, rid, shell):
     prog = ctx.program
     n = 0
@@ -480,31 +514,7 @@ def _consumers(ctx, rid, shell):
 
     # posterior(): normalisation by the sum of the same vector
     f = prog.func('Sampler.posterior')
-    cfgp = cfg_of(f)
-    from .exprs import as_aug
-    for r_ in walk_no_nested(f.node):
-        if not (isinstance(r_, ast.Return) and isinstance(r_.value, ast.Tuple) and
-                len(r_.value.elts) >= 2 and isinstance(r_.value.elts[1], ast.Name) and
-                cfgp.has(r_)):
-            continue
-        wname = r_.value.elts[1].id
-        for d in sorted(cfgp.defs_at(cfgp.node_of(r_).id, wname)):
-            dn = cfgp.nodes[d]
-            r = as_aug(dn.ast) if dn.kind == 'stmt' else None
-            ok = False
-            if r is not None:
-                t, op, v = r
-                ok = isinstance(op, ast.Sub) and isinstance(v, ast.Call) and \
-                    (dotted(v.func) or '').endswith('logsumexp') and len(v.args) == 1 and \
-                    not v.keywords and unparse(v.args[0]) == unparse(t)
-            n += 1
-            ctx.ob(rid, 'Sampler.posterior:weights-normalised-by-own-sum', ok,
-                   f.where(dn.ast if dn.ast is not None else r_),
-                   'the returned log weights are reduced by the logsumexp of that very vector: '
-                   'they sum to one' if ok else
-                   'the returned weights are last set by `%s`, which does not subtract the '
-                   'logsumexp of the weight vector itself: they do not sum to one'
-                   % (unparse(dn.ast)[:60] if dn.ast is not None else '?'))
+    n += posterior_normalisation(ctx, rid)
 
     # ---- E6 n_eff: the returned value as a monomial in sums over the shells
     f = prog.func('Sampler.n_eff')
